@@ -38,7 +38,7 @@ def impl(case):
     return out
 
 
-TERM_CHARSETS = [list("ab "), list("abc "), list("aéü "), list("abA "), list("a€b"), list("→←≤1"), list("€む→"), list("ab. ")]
+TERM_CHARSETS = [list("ab "), list("abc "), list("aéü "), list("abA "), list("a€b"), list("→←≤1"), list("€む→"), list("ab. "), list("ab+ "), list("aAbB")]
 
 
 def make_case(rng, i, tier):
@@ -62,11 +62,17 @@ def make_case(rng, i, tier):
         if "." in cs and rng.random() < 0.5:
             terms.append({"name": "TY", "kind": "str", "lit": ".", "ci": False, "ast": ("lit", ".")})
             terms.append({"name": "TZ", "kind": "re", "ast": ("dot",)})
+        elif "+" in cs and rng.random() < 0.7:
+            # the string "a+" and the regex /a+/ have the same source text
+            terms.append({"name": "TY", "kind": "str", "lit": "a+", "ci": False, "ast": ("cat", ("lit", "a"), ("lit", "+"))})
+            terms.append({"name": "TZ", "kind": "re", "ast": ("plus", ("lit", "a")), "src": "a+"})
         else:
-            lit = rng.choice([c for c in letters if c.isascii() and c.isalpha()] or ["a"])
-            if lit.isalpha() and lit.upper() in cs or True:
-                terms.append({"name": "TY", "kind": "str", "lit": lit, "ci": True, "ast": ("ilit", lit)})
-                terms.append({"name": "TZ", "kind": "str", "lit": lit, "ci": False, "ast": ("lit", lit)})
+            lit = "".join(rng.choice([c for c in letters if c.isascii() and c.isalpha()] or ["a"]) for _ in range(rng.choice([1, 1, 2])))
+            # both cases must be in the character set, otherwise "x"i and "x" denote the same language over it
+            cs = cs + [c for c in lit.swapcase() if c not in cs]
+            letters = [c for c in cs if c != " "]
+            terms.append({"name": "TY", "kind": "str", "lit": lit, "ci": True, "ast": ("ilit", lit)})
+            terms.append({"name": "TZ", "kind": "str", "lit": lit, "ci": False, "ast": ("lit", lit)})
     multi = [c for c in letters if len(c.encode()) >= 3]
     if len(multi) >= 2 and rng.random() < 0.6:
         # one terminal = a class over several 3-byte characters (shared lead byte, different continuation bytes)
@@ -95,7 +101,7 @@ def make_case(rng, i, tier):
         if t["kind"] == "str":
             lines.append(f'{t["name"]}: "{t["lit"]}"' + ("i" if t["ci"] else ""))
         else:
-            lines.append(f'{t["name"]}: /{regexgen.to_pattern(t["ast"])}/')
+            lines.append(f'{t["name"]}: /{t.get("src") or regexgen.to_pattern(t["ast"])}/')
     if ignore:
         lines.append("%ignore WS")
     L = 3 if len(cs) >= 4 else 4
